@@ -21,6 +21,8 @@ package scrapligo
 //@   ensures a_failed_reply_passes_only_if_all_it_carries_are_warnings [C18]: called(EditConfig) && callres(EditConfig, 0, 1) == nil && callres(EditConfig, 0, 0) != nil &&
 //@            callres(EditConfig, 0, 0).Failed != nil && len(callres(EditConfig, 0, 0).WarningErrorMessages) == 0 ==> r0 == nil && r1 != nil
 //@   ensures a_driver_error_is_an_error [C18]: called(EditConfig) && callres(EditConfig, 0, 1) != nil ==> r0 == nil && r1 != nil
+//@   internal every_rpc_error_of_an_accepted_reply_is_a_warning [C18]: r1 == nil && r0 != nil ==> called(FindElements) && callarg(FindElements, 0, 1) == "//rpc-error" &&
+//@            len(callres(FindElements, 0)) <= len(callres(EditConfig, 0, 0).WarningErrorMessages)
 
 // commit and discard-changes: success is reported exactly when the library reports neither an error nor a failed reply
 //@ func (*ScrapligoNetconfTarget).Commit
